@@ -1,6 +1,36 @@
 """C06 - conversions are lossless or refused; lossy ones are correctly rounded and say so."""
+import os
+import sys
 import core
 from core import hx, gen_int
+
+# coq/gen/ConvParams2.v (literals of to_f32_fast/to_f64_fast, the impl_conversion_to_float! windows and body shape, the
+# rounding precisions of FBig/Repr::to_f32/to_f64, MAX_BIT_LEN of TryFrom<UBig/IBig> for floats) is regenerated from the
+# Rust sources when this plug-in is imported, i.e. before the proof phase of every run.  Conv/ConvParams2Proof.v proves
+# the models at these numbers.  Unparseable source is not an alarm: the previous copy stays (marked STALE), the status
+# goes into the evidence (extra_phase) and the correspondence run alone ties those models.
+sys.path.insert(0, os.path.join(core.ROOT, "tools"))
+try:
+    import translate_c06_r3
+    CONV_PARAMS2_STATUS = translate_c06_r3.generate(core.REPO, os.path.join(core.COQ, "gen"))
+except Exception as _ex:  # the generator itself broke: same fallback as an unparseable source
+    CONV_PARAMS2_STATUS = "unparsed generator-failed: %s" % str(_ex)[:200]
+
+
+def extra_phase(tier, seed, exes, oracle):
+    word = CONV_PARAMS2_STATUS.split(" ", 1)[0]
+    return {
+        "evaluations": 0,
+        "hist": {"translator_c06_r3:ConvParams2:" + word: 1},
+        "nontrivial": [],
+        "samples": [{"fragment": "coq/gen/ConvParams2.v (tools/translate_c06_r3.py from rational/src/convert.rs, float/src/convert.rs, "
+                                 "integer/src/convert.rs)",
+                     "status": CONV_PARAMS2_STATUS,
+                     "tied_by": "C06_fast_f32_gen_tie, C06_fast_f64_gen_tie, C06_rat_try_f32_gen, C06_rat_try_f64_gen, C06_source_literals_tie_r3"
+                                if word == "ok" else "correspondence run only (source not parsed; previous copy marked STALE)"}],
+        "failures": [],
+    }
+
 
 ID = "C06"
 READY = True
